@@ -186,21 +186,28 @@ fn run_round(seed: u64, round: u64, workers: usize, submitters: usize, per: usiz
                 continue;
             }
             let tracked = tasks.len().await;
-            if sentinel.is_ok() && tracked == 0 {
-                // Pipeline idle, nothing tracked, and still a pending call: give its runtime idle
-                // time, then it is lost for good (nothing is left that could wake it).
+            if sentinel.is_ok() {
+                // The pipeline is alive and has finished everything submitted before the sentinel.
+                // Give the runtime idle time, then ask for a second sentinel: whatever was enqueued
+                // in the meantime is processed as well. A call that is still pending with no return
+                // in between has nothing left that could wake it.
                 tokio::time::sleep(Duration::from_millis(300)).await;
-                if returned.load(Ordering::SeqCst) == last && tasks.len().await == 0 {
+                let sop2 = sentinel_log.next(None, false);
+                let sev2 = Event::verif_new(sop2, LogId::from_topic(topic), topic, false.into());
+                let sentinel2 = tokio::time::timeout(Duration::from_secs(5), pipeline.process(sev2)).await;
+                tokio::time::sleep(Duration::from_millis(200)).await;
+                if sentinel2.is_ok() && returned.load(Ordering::SeqCst) == last {
+                    let still_tracked = tasks.len().await;
                     let p = pending.lock().unwrap().clone();
                     for e in p.into_iter().flatten() {
-                        lost.push(json!({"submitter": e.0, "index": e.1, "hash": e.2}));
+                        lost.push(json!({"submitter": e.0, "index": e.1, "hash": e.2, "tracked_tasks": still_tracked, "tracked_before": tracked}));
                     }
                     break;
                 }
                 continue;
             }
             if started.elapsed() > Duration::from_secs(60) {
-                inconclusive = Some(format!("round {round}: no progress for 60 s without the lost-submission state (tracked={tracked}, sentinel_ok={})", sentinel.is_ok()));
+                inconclusive = Some(format!("round {round}: no progress for 60 s and the pipeline did not answer a sentinel (tracked={tracked})"));
                 break;
             }
         }
@@ -247,9 +254,10 @@ pub fn run(args: &Args) {
             rep.inconclusive(w);
         }
         for l in &out.lost {
+            let tracked_left = l.get("tracked_tasks").and_then(|v| v.as_u64()).unwrap_or(0);
             rep.violation(
-                "C14:submission-never-returns",
-                format!("Pipeline::process is still pending although a later sentinel was processed and the tracker is empty (pause p={}‰)", p),
+                if tracked_left == 0 { "C14:submission-never-returns" } else { "C14:submission-never-returns:task-still-tracked" },
+                format!("Pipeline::process is still pending although two later sentinels were processed and no call returned in between ({} task(s) still tracked, pause p={}‰)", tracked_left, p),
                 json!({"seed": args.seed, "round": r, "workers": workers, "submitters": submitters, "per": per, "pause_permille": p, "lost": l, "window_entries_in_round": entries}),
             );
         }
